@@ -17,11 +17,13 @@ namespace Koda
 
 inductive DVar
   | keyU | validator | keyRequired | successDict | errs | success | newVal | result
+  | args | obj | asyncResult                 -- RecordValidator
 deriving DecidableEq, Repr, Inhabited
 
 inductive DSelf
   | disallowSync | cls | failOnUnknownKeys | keysSet | unknownKeysErr | fastKeysSync | fastKeysAsync
   | validateObject | validateObjectAsync
+  | into                                     -- RecordValidator
   | other (name : String)
 deriving DecidableEq, Repr, Inhabited
 
@@ -38,6 +40,11 @@ inductive DExp
   | notIn (a b : DExp)                       -- `a not in b`
   | and (a b : DExp)
   | dictTy
+  | isInstDict (e : DExp)                    -- `isinstance(e, dict)`
+  | mkMissingKeyErr                          -- `MissingKeyErr()`
+  | nothing                                  -- koda's `nothing`
+  | emptyList
+  | callStar (f : DExp) (a : DExp)           -- `f(*a)`
   | missingKeyErr                            -- the module constant `missing_key_err`
   | raiseAsyncInSync (e : DExp)              -- `_raise_validate_object_async_in_sync_mode(e)`
   | mkTypeErr (t : DExp)
@@ -59,6 +66,7 @@ inductive DStmt
   | ret (e : DExp)
   | expr (e : DExp)
   | setItem (d : DVar) (k v : DExp)
+  | append (l : DVar) (e : DExp)
   | unsupported (why : String)
 deriving Repr, Inhabited
 
@@ -70,6 +78,9 @@ structure DictAnyCfg where
   oc : Option ObjCheck
   aoc : Option ObjCheck
   failUnknown : Bool
+  /-- RecordValidator: the target constructor and its identity -/
+  into : List PyVal → PyVal := fun _ => .none
+  intoId : Nat := 0
 
 inductive AV
   | py (v : PyVal)
@@ -90,6 +101,9 @@ inductive AV
   | customErr (e : Nat)
   | dictPayload (kvs : List (PyVal × PyVal))   -- `success_dict` (and `{}` before anything was stored in it)
   | keyErrs (es : List (PyVal × Inv))          -- `errs`
+  | payloadList (ws : List PyVal)              -- `args`
+  | built (v : PyVal)                          -- `obj = self.into(*args)`
+  | intoFn
 deriving Inhabited
 
 structure DEnv where
@@ -101,16 +115,21 @@ structure DEnv where
   success : AV := .none
   newVal : AV := .none
   result : AV := .none
+  args : AV := .none
+  obj : AV := .none
+  asyncResult : AV := .none
 
 def DEnv.get (e : DEnv) : DVar → AV
   | .keyU => e.keyU | .validator => e.validator | .keyRequired => e.keyRequired | .successDict => e.successDict
   | .errs => e.errs | .success => e.success | .newVal => e.newVal | .result => e.result
+  | .args => e.args | .obj => e.obj | .asyncResult => e.asyncResult
 
 def DEnv.set (e : DEnv) (v : DVar) (d : AV) : DEnv :=
   match v with
   | .keyU => { e with keyU := d } | .validator => { e with validator := d } | .keyRequired => { e with keyRequired := d }
   | .successDict => { e with successDict := d } | .errs => { e with errs := d } | .success => { e with success := d }
   | .newVal => { e with newVal := d } | .result => { e with result := d }
+  | .args => { e with args := d } | .obj => { e with obj := d } | .asyncResult => { e with asyncResult := d }
 
 inductive DErr
   | exn (e : Exn)
@@ -145,6 +164,7 @@ def dselfAttr (cfg : DictAnyCfg) : DSelf → Option AV
   | .fastKeysAsync => some (.triples (cfg.keys.zip (cfg.evs.zip cfg.reqs)))
   | .validateObject => some (match cfg.oc with | some c => .objCheck c | none => .none)
   | .validateObjectAsync => some (match cfg.aoc with | some c => .aobjCheck c | none => .none)
+  | .into => some .intoFn
   | .other _ => Option.none
 
 inductive DFlow
@@ -193,6 +213,14 @@ def DExp.eval (cfg : DictAnyCfg) (x : PyVal) (st : DSt) : DExp → DM AV
           (match c.f (.dict 0 kvs) with
            | Option.none => .ok (.none, { st with tr := st.tr ++ [.oc c.id] })
            | some e => .ok (.customErr e, { st with tr := st.tr ++ [.oc c.id] }))
+        | .objCheck c, .built v =>
+          (match c.f v with
+           | Option.none => .ok (.none, { st with tr := st.tr ++ [.oc c.id] })
+           | some e => .ok (.customErr e, { st with tr := st.tr ++ [.oc c.id] }))
+        | .aobjCheck c, .built v =>
+          (match c.f v with
+           | Option.none => .ok (.none, { st with tr := st.tr ++ [.aoc c.id] })
+           | some e => .ok (.customErr e, { st with tr := st.tr ++ [.aoc c.id] }))
         | .aobjCheck c, .dictPayload kvs =>
           (match c.f (.dict 0 kvs) with
            | Option.none => .ok (.none, { st with tr := st.tr ++ [.aoc c.id] })
@@ -247,6 +275,24 @@ def DExp.eval (cfg : DictAnyCfg) (x : PyVal) (st : DSt) : DExp → DM AV
        | some false => .ok (ad, st)
        | some true => b.eval cfg x st)
   | .dictTy => .ok (.tyName .dict, st)
+  | .isInstDict e =>
+    match e.eval cfg x st with
+    | .error err => .error err
+    | .ok (.py y, st) => .ok (.bool (y.baseTy == .dict), st)
+    | .ok (_, st) => .error (.stuck "isinstance", st.tr)
+  | .mkMissingKeyErr => .ok (.errK .missingKey, st)
+  | .nothing => .ok (.py .nothing, st)
+  | .emptyList => .ok (.payloadList [], st)
+  | .callStar f a =>
+    match f.eval cfg x st with
+    | .error err => .error err
+    | .ok (fd, st) =>
+      match a.eval cfg x st with
+      | .error err => .error err
+      | .ok (ad, st) =>
+        (match fd, ad with
+         | .intoFn, .payloadList ws => .ok (.built (cfg.into ws), { st with tr := st.tr ++ [.into cfg.intoId] })
+         | _, _ => .error (.stuck "call", st.tr))
   | .missingKeyErr => .ok (.errK .missingKey, st)
   | .raiseAsyncInSync e =>
     match e.eval cfg x st with
@@ -276,6 +322,7 @@ def DExp.eval (cfg : DictAnyCfg) (x : PyVal) (st : DSt) : DExp → DM AV
            | .errK k, .py y, .self => .ok (.invalid (.mk k y cfg.vid []), st)
            | .keyErrK es, .py y, .self => .ok (.invalid (.mk (.keys (es.map Prod.fst)) y cfg.vid (es.map Prod.snd)), st)
            | .customErr e, .dictPayload kvs, .self => .ok (.invalid (.mk (.custom e) (.dict 0 kvs) cfg.vid []), st)
+           | .customErr e, .built v, .self => .ok (.invalid (.mk (.custom e) v cfg.vid []), st)
            | _, _, _ => .error (.stuck "Invalid", st.tr))
   | .emptyDict => .ok (.dictPayload [], st)
   | .pair a b =>
@@ -343,6 +390,13 @@ def DStmt.exec (cfg : DictAnyCfg) (x : PyVal) (st : DSt) : DStmt → Except (DEr
          | .keyErrs es, .py k, .invalid e => .ok (.next { st with env := st.env.set d (.keyErrs (es ++ [(k, e)])) })
          | .dictPayload [], .py k, .invalid e => .ok (.next { st with env := st.env.set d (.keyErrs [(k, e)]) })
          | _, _, _ => .error (.stuck "item assignment", st.tr))
+  | .append l e =>
+    match e.eval cfg x st with
+    | .error err => .error err
+    | .ok (d, st) =>
+      (match st.env.get l, d with
+       | .payloadList ws, .py w => .ok (.next { st with env := st.env.set l (.payloadList (ws ++ [w])) })
+       | _, _ => .error (.stuck "append", st.tr))
   | .unsupported why => .error (.stuck why, st.tr)
 termination_by structural s => s
 def DStmt.execL (cfg : DictAnyCfg) (x : PyVal) (st : DSt) : List DStmt → Except (DErr × List Ev) DFlow
@@ -361,6 +415,7 @@ def runDictAnyMethod (cfg : DictAnyCfg) (body : List DStmt) (x : PyVal) : Option
   | .error (.exn e, t) => some (.raised e, t)
   | .error (_, _) => none
   | .ok (.returned (.pair (.bool true) (.dictPayload kvs)) st) => some (.valid (.dict 0 kvs), st.tr)
+  | .ok (.returned (.pair (.bool true) (.built v)) st) => some (.valid v, st.tr)
   | .ok (.returned (.pair (.bool false) (.invalid e)) st) => some (.invalid e, st.tr)
   | .ok _ => none
 
